@@ -220,7 +220,7 @@ impl ModeOwned {
 	pub fn random(rng: &mut Rng) -> Self {
 		use crate::bridge::collect::{EnumVia, UnionVia};
 		ModeOwned {
-			union_via: *rng.pick(&[UnionVia::Enum, UnionVia::OptionWhenNullable]),
+			union_via: *rng.pick(&[UnionVia::Enum, UnionVia::Enum, UnionVia::OptionWhenNullable, UnionVia::OptionWhenNullable, UnionVia::OptionAlways]),
 			enum_via: *rng.pick(&[EnumVia::Str, EnumVia::U64, EnumVia::EnumIdentifier]),
 			duration_via: rng.below(3) as u8,
 			owned_hints: rng.coin(),
